@@ -8,7 +8,7 @@
    weight/max_weight below 2^-1074 rounding to 0 or to a subnormal) and overflow are
    outside; for quotients in [2^-1022, 1] rnd53 IS the IEEE result. *)
 From EoNV Require Import Prelude Samp ListDict ListDictP ListDictF ListDictFP ListDictFPr ListDictFPr2
-  ListDictFP2 ListDictFP3 ListDictFP4 ListDictFPb ListDictFPm ListDictFPm2 ListDictFPm3 ListDictFPm4.
+  ListDictFP2 ListDictFP3 ListDictFP4 ListDictFPb ListDictFPm ListDictFPm2 ListDictFPm3 ListDictFPm4 ListDictFPm5.
 From Coq Require Import Qabs Qpower.
 
 (* ---------- the rounding ---------- *)
@@ -148,6 +148,31 @@ Proof. exact b64_update_never_lowers. Qed.
 Example C16fm_absorption : fadd rnd53 d07 dtiny == d07 /\ 0 < dtiny.
 Proof. exact b64_absorption_example. Qed.
 
+(* the running total _total_weight is a binary64 number after every history ... *)
+Theorem C16fm_total_is_double :
+  forall (K : Type) (Keqb : K -> K -> bool), (forall a b, reflect (a = b) (Keqb a b)) ->
+  forall (ops : list (op K)) (s : ld K),
+    Forall (op_ok K true) ops -> ldf_run K Keqb rnd53 (ld_empty true) ops = Ok s ->
+    rnd53 (total s) == total s.
+Proof. exact b64_total_representable. Qed.
+
+(* ... an increment >= 0 (update; insert of an absent key) never lowers it; a removal that
+   leaves a candidate never raises it and leaves it >= 0 when the removed weight does not
+   exceed it (a removal that empties resets it to exactly 0, which can raise a total that
+   had drifted below 0: C16f_total_can_be_negative) *)
+Theorem C16fm_total_moves_the_right_way :
+  forall (K : Type) (Keqb : K -> K -> bool), (forall a b, reflect (a = b) (Keqb a b)) ->
+  forall (ops : list (op K)) (s s' : ld K) o,
+    Forall (op_ok K true) ops -> ldf_run K Keqb rnd53 (ld_empty true) ops = Ok s ->
+    op_ok K true o -> ldf_step K Keqb rnd53 s o = Ok s' ->
+    match o with
+    | OpUpdate _ _ => total s <= total s'
+    | OpInsert k _ => contains K s k = false -> total s <= total s'
+    | OpRemove k => (items s' <> [] -> total s' <= total s) /\ (wread K s k <= total s -> 0 <= total s')
+    | OpAdd _ => True
+    end.
+Proof. exact b64_total_monotone_steps. Qed.
+
 (* ---------- the selection law with rounded thresholds ---------- *)
 (* [thr_state rnd s] = the exact structure of Model/ListDict.v whose weights are the
    rounded thresholds of s and whose max_weight is 1: one round of the rounded
@@ -255,3 +280,5 @@ Print Assumptions C16fm_absorption.
 Print Assumptions C16fm_acceptance_rate_relative.
 Print Assumptions C16fm_selection_vs_specification.
 Print Assumptions C16fm_specification_nonvacuous.
+Print Assumptions C16fm_total_is_double.
+Print Assumptions C16fm_total_moves_the_right_way.
